@@ -73,8 +73,12 @@ def run_pass(pid, cfg, pas, tier, replay_rec, deadline_s, workdir):
     """build + run one pass (one build variant) of a property's harness; returns list of shard jsons"""
     lib = vbuild.build_lib(pas.get("variant", "rel"), pas.get("cache_size", 4), pas.get("lib_flags", ()))
     src = os.path.join(VERIF, "harness", pas.get("harness", cfg["harness"]))
+    extra_link = pas.get("extra_link", ())
+    if callable(extra_link):
+        extra_link = extra_link()
     exe = vbuild.build_harness(src, lib, extra_flags=["-DVF_WITH_DSPLIB"] + list(pas.get("flags", ())),
-                               name=os.path.splitext(os.path.basename(src))[0] + "_" + pas.get("name", "main"))
+                               name=os.path.splitext(os.path.basename(src))[0] + "_" + pas.get("name", "main"),
+                               extra_link=extra_link)
     nshards = 1 if replay_rec else pas.get("shards", 16)
     procs = []
     env = dict(os.environ)
